@@ -21,7 +21,7 @@ LET = {
 }
 STEP_FAULTS = ['key', 'handler', 'unser']
 STEP_BODY = ['exc', 'intr', 'exc-lib']
-STEP_PRE = ['pre-discard', 'pre-force']
+STEP_PRE = ['pre-discard', 'pre-force', 'hnone']
 GAP = ['gap-discard', 'gap-force', 'gap-raise', 'gap-intr']
 ENDS = ['ret', 'raise:E1', 'raise:Unser', 'intr']
 GLOBS = {
@@ -31,6 +31,8 @@ GLOBS = {
     'rate.5-drop': {'params': {'rate': 0.5}, 'draw': 0.75}, 'copy-on': {'params': {'copy': True}}, 'cls': {'kind': 'cls'},
     'cls-ext': {'kind': 'cls', 'ext': 'dict'}, 'ignore-rate0': {'params': {'rate': 0.0, 'ignore': True}}, 'skipped': {'params': {'skipped': True}},
     'disabled': {'enabled': False},
+    'prior-run-params': {'params': {'rate': 1.0}, 'ext': 'raise', 'prior': True}, 'prior-run': {'ext': 'raise', 'prior': True},
+    'ext-nonstr': {'ext': 'nonstr'},
     'in-except': {'call_context': 'except'}, 'in-finally': {'call_context': 'finally', 'ext': 'dict'},
     'sub': {'sub': True, 'ext': 'dict'}, 'sub-params': {'sub': True, 'params': {'rate': 0.0}}, 'sub-cls': {'sub': True, 'kind': 'cls', 'params': {'skipped': True}},
 }
@@ -47,6 +49,8 @@ def applicable(letter, kind):
         return fn in ('in_a', 'in_b', 'in_static')
     if kind == 'handler':
         return fn in ('in_hdl', 'out_hdl')
+    if kind == 'hnone':
+        return fn == 'in_hdl'
     if kind == 'intr' and LET[letter].get('do') == 'thr':
         return False   # a BaseException that only kills a worker thread is absorbed there: outside the quantifier (like a caught one)
     return True
@@ -95,6 +99,8 @@ def build(case):
             tgt.setdefault('pre', []).insert(0, {'do': 'discard'})
         elif kind == 'pre-force':
             tgt.setdefault('pre', []).insert(0, {'do': 'force'})
+        elif kind == 'hnone':
+            tgt['hnone'] = True
         else:
             gaps.setdefault(pos, []).append({'gap-discard': {'do': 'discard'}, 'gap-force': {'do': 'force'}, 'gap-raise': {'do': 'raise', 'exc': 'E2'},
                                              'gap-intr': {'do': 'intr'}, 'gap-disable': {'do': 'disable'}}[kind])
@@ -150,10 +156,26 @@ def execute(case, second=True, cas='mem'):
     b = Bundle()
     b.prog, b.g = prog, g
     b.box = cassettes.Box(cas)
+    b.prior_ids = []
     draw = g.get('draw')
     b.R = P.ref(prog, enabled=g.get('enabled', True), draw=draw, save_raises=g.get('save_raises', False))
-    b.r1 = P.record(prog, inner=b.box.cassette, enabled=g.get('enabled', True), save_raises=g.get('save_raises', False),
-                    draws=[draw] if draw is not None else ([0.5] if True else None))
+    if g.get('prior'):
+        # an earlier run of the same class on the same recorder: its extractor succeeded and it ended with an ordinary exception
+        prior = {'steps': [{'fn': 'out_b', 'a': ['xs'], 'ret': 'v1'}], 'end': 'raise:E2'}
+        for k in ('ext', 'params', 'kind', 'sub'):
+            if k in prog:
+                prior[k] = prog[k]
+        P.RT.ext_override = None
+        pr = P.record(prior, inner=b.box.cassette, draws=[0.5])
+        env = pr.env
+        P.RT.ext_override = 'dict'
+        P.record(dict(prior), env=env)
+        P.RT.ext_override = None
+        b.prior_ids = [e[1] for e in env.spy.log if e[0] == 'save']
+        b.r1 = P.record(prog, env=env)
+    else:
+        b.r1 = P.record(prog, inner=b.box.cassette, enabled=g.get('enabled', True), save_raises=g.get('save_raises', False),
+                        draws=[draw] if draw is not None else ([0.5] if True else None))
     b.env = b.r1.env
     b.end1 = P.RT.last_end
     b.r2 = None
